@@ -499,6 +499,9 @@ def exactsolve(A: LinearOperator, B: torch.Tensor,
     # M: (*BM, na, na)
     if E is None:
         Amatrix = A.fullmatrix()  # (*BA, na, na)
+        if B.ndim < Amatrix.ndim:
+            # B with fewer batch dimensions must not be taken as a batch of vectors
+            B = B.reshape(*([1] * (Amatrix.ndim - B.ndim)), *B.shape)
         x = torch.linalg.solve(Amatrix, B)  # (*BAB, na, ncols)
     elif M is None:
         Amatrix = A.fullmatrix()
